@@ -202,6 +202,74 @@ def mapMethodRef (r : BTable) (sup : Supers) (fuel : Nat) (cls : JStr) (key : Me
 search except the last one is a row of the provider -/
 def defaultFuel (sup : Supers) : Nat := sup.length + 1
 
+/-! ## Sequences of questions to one remapper instance
+
+`ARemapperImpl` and `BRemapperImpl` hold only the tables built by `remapper_a` / `remapper_b` plus a shared reference to
+the provider, every method takes `&self`, and there is no interior mutability: a remapper is a pure question-answering
+object. The model of "ask the same instance a list of questions" therefore threads **no** state from one question to
+the next (`mapSeq`); the correspondence run (op `map-seq`) is what ties that to the code — an implementation that
+remembers earlier questions (a cache) answers differently from `mapSeq` as soon as the cache is wrong. -/
+
+/-- one question. `viaA`: ask the `remapper_a` instance, otherwise the `ARemapper` half of the `remapper_b` instance -/
+inductive Query where
+  /-- `map_class_fail`, `map_class`, `map_class_any` -/
+  | cls (viaA : Bool) (c : JStr)
+  /-- `map_field_desc` / `map_method_desc` / `map_return_desc` (all `map_desc`) -/
+  | desc (viaA : Bool) (d : JStr)
+  /-- `map_field_fail`, `map_field`, `map_field_ref` (`field = true`) / `map_method_fail`, `map_method`, `map_method_ref_obj` -/
+  | member (field : Bool) (owner : JStr) (key : MemberKey)
+  /-- `map_method_ref` (owner may be an array class) -/
+  | mref (cls : JStr) (key : MemberKey)
+  deriving Repr, BEq, DecidableEq
+
+/-- the answer to one question; inner `none`s are errors (`map_desc` rejected), `fuel` = the model ran out of fuel -/
+inductive Answer where
+  | cls (fail : Option JStr) (mapped : JStr) (any : Option JStr)
+  | desc (d : Option JStr)
+  | member (fail : Option MemberKey) (mapped : Option MemberKey) (ref : Option (JStr × MemberKey))
+  | mref (r : Option (JStr × MemberKey))
+  | fuel
+  deriving Repr, BEq, DecidableEq
+
+/-- what was built once from a mapping set: the result of `remapper_a(src, dst)`, of `remapper_b(src, dst, &provider)`,
+and the provider -/
+structure Instance where
+  a : ATable
+  b : BTable
+  sup : Supers
+
+def Instance.classes (i : Instance) (viaA : Bool) : ATable := if viaA then i.a else classTable i.b
+
+def memberSel (field : Bool) : BClass → AList MemberKey MemberKey := if field then BClass.fields else BClass.methods
+
+/-- the answer of the instance to one question -/
+def mapOne (i : Instance) : Query → Answer
+  | .cls viaA c => let t := i.classes viaA; .cls (mapClassFail t c) (mapClass t c) (mapClassAny t c)
+  | .desc viaA d => .desc (mapDescWith (i.classes viaA) d)
+  | .member field owner key =>
+    let sel := memberSel field
+    let fuel := defaultFuel i.sup
+    match mapMemberFail sel i.b i.sup fuel owner key, mapMember sel i.b i.sup fuel owner key,
+          mapRefObj sel i.b i.sup fuel owner key with
+    | some f, some g, some h => .member f g h
+    | _, _, _ => .fuel
+  | .mref cls key =>
+    match mapMethodRef i.b i.sup (defaultFuel i.sup) cls key with
+    | some h => .mref h
+    | none => .fuel
+
+/-- the answers of ONE instance to a list of questions asked in this order: nothing is carried from one question to the
+next -/
+def mapSeq (i : Instance) : List Query → List Answer
+  | [] => []
+  | q :: qs => mapOne i q :: mapSeq i qs
+
+/-- `remapper_a` and `remapper_b` of one mapping set with one provider; `none` = one of the two constructions fails -/
+def instanceOf (m : Mappings) (src dst : Nat) (sup : Supers) : Option Instance :=
+  match remapperA m src dst, remapperB m src dst with
+  | some a, some b => some { a := a, b := b, sup := sup }
+  | _, _ => none
+
 /-! ## Specification helpers used by theorems and oracles -/
 
 /-- concatenation of fuel-limited traversals -/
